@@ -565,7 +565,7 @@ PROPS = {
 }
 
 # Tie by translation (Kanal/TieCode.lean): which "generated code = fine-grained model" theorems each property rests on
-_T_BASE = ["translation_complete", "translated_functions", "new_eq", "constructor_calls"]
+_T_BASE = ["translation_complete", "translated_functions", "glue_ok", "new_eq", "constructor_calls"]
 _T_INTERNAL = ["next_send_eq", "next_recv_eq", "push_send_eq", "push_recv_eq", "terminate_signals_eq", "cancel_loop", "cancel_send_eq",
                "cancel_recv_eq", "exists_loop", "send_exists_eq", "recv_exists_eq"]
 _T_SEND = ["try_send", "try_send_option", "try_send_realtime", "try_send_option_realtime", "send", "send_timeout", "send_option_timeout", "poll_send"]
@@ -617,6 +617,8 @@ EXTRA_FILES = {
     "C07": ["Kanal/TieProto.lean", "Kanal/ProtoSim.lean"],
     "C17": ["Kanal/TieProto.lean", "Kanal/ProtoSimMutex.lean"],
     "C13": ["Kanal/TieProto.lean"],            # wait_timeout / is_terminated
+    "C16": ["Kanal/TieProto.lean"],            # poll, will_wake, register_waker, the constructors (a signal starts LOCKED)
+    "C15": ["Kanal/TieProto.lean"],            # async_blocking_wait in Drop
     "C14": ["Kanal/Props/C14Fine.lean"],
     "C02": ["Kanal/Props/RealTime.lean"],      # real-time readings over executions: acceptance order in time, later value never taken first, drain order
     "C08": ["Kanal/Props/RealTime.lean"],      # at every instant of an execution: accepted-and-unblocked minus delivered <= n; rendezvous
